@@ -42,6 +42,9 @@ fn slot_keys(mint: Pubkey, owners: &[Pubkey; 2], t22: bool) -> SlotKeys {
         spl_associated_token_account::get_associated_token_address_with_program_id(&owners[0], &mint, &prog),
         spl_associated_token_account::get_associated_token_address_with_program_id(&owners[1], &mint, &prog),
     ];
+    // Token-2022 position: owner B receives a locked position into a PLAIN token account (165 bytes, no extensions, not the
+    // associated address) — transfer_locked_position accepts any token account of the mint as destination
+    let ta = if t22 { [ta[0], key(&format!("{mint}/plain-token-account/owner-b"))] } else { ta };
     let (lock_cfg, _) = pda(&[b"lock_config", addr.as_ref()]);
     let (meta, meta_bump) = Pubkey::find_program_address(&[b"metadata", METADATA.as_ref(), mint.as_ref()], &METADATA);
     SlotKeys { mint, addr, bump, ta, lock_cfg, meta, meta_bump }
